@@ -9,11 +9,11 @@ open Driver Restic.Model.Parse Restic.Model.Strconv
 def errName : PErr → String
   | .noNumber => "nonumber" | .noUnit => "nounit" | .invalidUnit => "invalidunit"
   | .esyntax => "syntax" | .range => "range" | .emptyString => "emptystring" | .negative => "negative"
-  | .emptyKey => "emptykey" | .dupKey => "dup"
+  | .emptyKey => "emptykey" | .dupKey => "dup" | .unknownOption => "unknown" | .badDuration => "badduration"
   | .unterminatedSingle => "single" | .unterminatedDouble => "double" | .emptyCommand => "empty"
 
 def errOfName (s : String) : Option PErr :=
-  [PErr.noNumber, .noUnit, .invalidUnit, .esyntax, .range, .emptyString, .negative, .emptyKey, .dupKey,
+  [PErr.noNumber, .noUnit, .invalidUnit, .esyntax, .range, .emptyString, .negative, .emptyKey, .dupKey, .unknownOption, .badDuration,
    .unterminatedSingle, .unterminatedDouble, .emptyCommand].find? (fun e => errName e == s)
 
 def lenLab (s : Str) : String :=
@@ -180,6 +180,97 @@ def handleFlags (s : Str) (inr r : Array String) : Verdict :=
       else if impl != m then .differ "flags" s!"in={hex s} readdata={readData} model={repr m} impl={kind}"
       else .agree (impl == .accept && s != []) ["flags", lenLab s, kind, "pct:" ++ inr.getD 5 ""]
 
+/-! Options.Apply -/
+
+def kindOfName (s : String) : Kind :=
+  match s with
+  | "string" => .str | "int" => .int | "uint" => .uint | "bool" => .bool | "Duration" => .dur | _ => .other
+
+def kindName : Kind → String
+  | .str => "string" | .int => "int" | .uint => "uint" | .bool => "bool" | .dur => "duration" | .other => "unsupported"
+
+def valOf (k : Kind) (tok : String) : Option Val :=
+  match k with
+  | .str => (unhex tok).map .str
+  | .int => tok.toInt?.map .int
+  | .uint => tok.toNat?.map .uint
+  | .bool => some (.bool (tok == "1"))
+  | .dur => tok.toInt?.map .dur
+  | .other => none
+
+def showVal : Val → String
+  | .str s => s!"str:{hex s}" | .int i => s!"int:{i}" | .uint n => s!"uint:{n}" | .bool b => s!"bool:{b}" | .dur d => s!"dur:{d}"
+
+def handleApply (c : Case) : Verdict := Id.run do
+  let sname := ((c.find "struct").map fun r => r.getD 1 "?").getD "?"
+  let mut fields : List (Str × Kind) := []
+  for r in c.findAll "field" do
+    match unhex (r.getD 1 "-") with
+    | some t => fields := fields ++ [(t, kindOfName (r.getD 2 ""))]
+    | none => return .differ "protocol" "bad-field"
+  let mut opts : List (Str × Str) := []
+  let mut durs : List (Str × Option Int) := []
+  for r in c.findAll "opt" do
+    match unhex (r.getD 1 "-"), unhex (r.getD 2 "-") with
+    | some k, some v =>
+      opts := opts ++ [(k, v)]
+      durs := durs ++ [(v, if r.getD 4 "" == "ok" then (r.getD 5 "").toInt? else none)]
+    | _, _ => return .differ "protocol" "bad-opt"
+  let durFn (v : Str) : Option Int := (durs.lookup v).getD none
+  let some r := c.find "res" | return .differ "protocol" "no-res"
+  let kind := r.getD 1 ""
+  let model := applyAll fields durFn opts
+  let optKinds := opts.map fun kv => (fields.lookup kv.1).getD .other
+  let unsupported := (opts.any fun kv => fields.lookup kv.1 == some Kind.other)
+  let labels := ["apply", "struct:" ++ sname, s!"nopts{opts.length}"] ++ (optKinds.map kindName).eraseDups ++
+    [match model with | .ok _ => "ok" | .err e => "err:" ++ errName e | .panic => "panic"]
+  -- the implementation's result
+  if kind == "panic" then
+    if unsupported then
+      return (if model == .panic then .agree false labels else .differ "apply" "impl panics, model does not")
+    else return .specfalse "C49:apply:panic" s!"struct={sname} opts={opts.map fun kv => (hex kv.1, hex kv.2)} msg={r.getD 2 "-"}"
+  if kind == "err" then
+    let some e := errOfName (r.getD 2 "") | return .differ "apply" s!"unclassified error {r.getD 2 "-"}"
+    -- spec: with one option of a known key, rejection must be justified
+    match opts with
+    | [(k, v)] =>
+      match fields.lookup k with
+      | some kd =>
+        if !specApply kd v (durFn v) (.err e) then
+          return .specfalse s!"C49:apply:{kindName kd}:valid-value-rejected" s!"struct={sname} key={hex k} value={hex v}"
+      | none => pure ()
+    | _ => pure ()
+    match model with
+    | .err me =>
+      if opts.length == 1 && me != e then return .differ "apply" s!"error kind model={errName me} impl={errName e} opts={opts.map fun kv => (hex kv.1, hex kv.2)}"
+      return .agree false labels
+    | _ => return .differ "apply" s!"impl rejects, model={showOut (fun l => toString (l.map fun kv => (hex kv.1, showVal kv.2))) model} opts={opts.map fun kv => (hex kv.1, hex kv.2)}"
+  if kind != "ok" then return .differ "protocol" s!"bad res {kind}"
+  -- accepted: stored values
+  let mut stored : List (Str × Val) := []
+  for tok in r.toList.drop 2 do
+    match tok.splitOn "=" with
+    | [k, v] =>
+      match unhex k with
+      | some kb =>
+        let kd := (fields.lookup kb).getD .other
+        match valOf kd v with
+        | some val => stored := stored ++ [(kb, val)]
+        | none => return .differ "apply" s!"cannot read stored value {tok}"
+      | none => return .differ "protocol" "bad-key"
+    | _ => return .differ "protocol" "bad-res-token"
+  for (k, v) in opts do
+    match fields.lookup k, stored.lookup k with
+    | some kd, some val =>
+      if !specApply kd v (durFn v) (.ok val) then
+        return .specfalse s!"C49:apply:{kindName kd}:accepted-with-wrong-value-or-malformed" s!"struct={sname} key={hex k} value={hex v} stored={showVal val}"
+    | _, _ => return .specfalse "C49:apply:unknown-option-accepted" s!"struct={sname} key={hex k}"
+  match model with
+  | .ok ms =>
+    if ms != stored then return .differ "apply" s!"stored values differ model={ms.map fun kv => (hex kv.1, showVal kv.2)} impl={stored.map fun kv => (hex kv.1, showVal kv.2)}"
+    return .agree (!opts.isEmpty) labels
+  | m => return .differ "apply" s!"impl accepts, model={showOut (fun _ => "") m} opts={opts.map fun kv => (hex kv.1, hex kv.2)}"
+
 def handleCli (c : Case) : Verdict :=
   let what := ((c.find "what").map fun r => r.getD 1 "").getD ""
   match (c.find "in").bind (fun r => (r.toList.drop 1).mapM unhex), c.find "res" with
@@ -199,7 +290,8 @@ def handleCli (c : Case) : Verdict :=
   | _, _ => .differ "protocol" "cli-missing-record"
 
 def handleC49 (c : Case) : Verdict :=
-  if c.stream == "opts" then handleOpts c
+  if c.stream == "apply" then handleApply c
+  else if c.stream == "opts" then handleOpts c
   else if c.stream == "cli" then handleCli c
   else
     match c.find "in", c.find "res" with
